@@ -204,7 +204,7 @@ def parse_race_output(out):
     fails, races, kinds, summ, mix, shown = [], [], {}, {}, "", []
     lines = out.splitlines()
     for i, line in enumerate(lines):
-        m = re.match(r"FAIL race job=(\S+):(\d+) goroutine=(\d+) round=(\d+) concurrent=(\S+) sequential=(\S+)", line)
+        m = re.match(r"FAIL race job=(\S+):(\d+) goroutine=(-?\d+) round=(\d+) concurrent=(\S+) sequential=(\S+)", line)
         if m:
             det = [line]
             for l in lines[i + 1:i + 4]:
@@ -231,15 +231,21 @@ def parse_race_output(out):
         fn, where = "?", "?"
         for j, l in enumerate(bl):
             if re.match(r"^(Write|Read|Previous|Atomic)", l.strip()) and j + 2 < len(bl):
-                fn = bl[j + 1].strip()
-                where = bl[j + 2].strip().split(" ")[0]
+                # first frame outside the Go runtime
+                k = j + 1
+                while k + 1 < len(bl) and bl[k].strip():
+                    fn = bl[k].strip()
+                    where = bl[k + 1].strip().split(" ")[0]
+                    if not fn.startswith("runtime."):
+                        break
+                    k += 2
                 break
         races.append({"function": fn, "at": where, "detail": "\n".join(bl[:26])})
     return fails, races, summ, kinds, mix, shown
 
 
-def soak(ck, binary, label, seed, goroutines, jobs, secs, mix=None, only=None, once=False, show=False, timeout=900):
-    cmd = [binary, "race", "-seed", str(seed), "-goroutines", str(goroutines), "-jobs", str(jobs), "-secs", str(secs)]
+def soak(ck, binary, label, seed, goroutines, jobs, secs, mix=None, only=None, once=False, show=False, timeout=900, order="before"):
+    cmd = [binary, "race", "-seed", str(seed), "-goroutines", str(goroutines), "-jobs", str(jobs), "-secs", str(secs), "-order", order]
     if mix:
         cmd += ["-mix", ",".join(mix)]
     if only:
@@ -256,15 +262,18 @@ def soak(ck, binary, label, seed, goroutines, jobs, secs, mix=None, only=None, o
         m = re.search(r"(fatal error: [^\n]*|panic: [^\n]*|NONDET [^\n]*|\[timeout[^\n]*)", out)
         crash = (m.group(1) if m else "exit status %d" % rc) + "\n" + out[-1500:]
     return {"label": label, "rc": rc, "out": out, "fails": fails, "races": races, "summ": summ, "kinds": kinds, "mix": jobmix,
-            "crash": crash, "secs": dt, "goroutines": goroutines, "soak_secs": secs, "shown": shown}
+            "crash": crash, "secs": dt, "goroutines": goroutines, "soak_secs": secs, "shown": shown, "order": order}
+
+
+_SEEN = set()
 
 
 def report_runtime(ck, res):
     """turn runtime findings into counterexamples; returns number reported"""
     n = 0
     binary = "race" if res["label"].startswith("race") else "plain"
-    rp = {"binary": binary, "only": res["mix"], "goroutines": res["goroutines"], "secs": res["soak_secs"]}
-    seen = set()
+    rp = {"binary": binary, "only": res["mix"], "goroutines": res["goroutines"], "secs": res["soak_secs"], "order": res["order"]}
+    seen = _SEEN
     for f in res["fails"]:
         key = "mismatch:" + f["kind"]
         if key in seen:
@@ -282,8 +291,10 @@ def report_runtime(ck, res):
             break
         ck.violation(key, "counterexample", "Go race detector: goroutines driving distinct instances race in %s at %s\n%s" % (r["function"], r["at"], r["detail"]), rp)
         n += 1
-    if res["crash"] and not res["out"].count("NONDET"):
-        ck.violation("crash:" + res["crash"].splitlines()[0][:60], "counterexample",
+    ckey = "crash:" + res["crash"].splitlines()[0][:60] if res["crash"] else ""
+    if res["crash"] and not res["out"].count("NONDET") and ckey not in seen:
+        seen.add(ckey)
+        ck.violation(ckey, "counterexample",
                      "the concurrent run crashed (%s build): %s" % (binary, res["crash"]), rp)
         n += 1
     return n
@@ -362,12 +373,19 @@ def run_c18(ck):
     if raceb is None:
         ck.oblige("build Go harness with -race against the tree under test", False, herr)
     runs = []
+    # "before": sequential reference first, then the concurrent rounds (as the property is phrased);
+    # "after": the process's very first use of the library is concurrent (cold caches / lazy initialisation),
+    # the reference is taken afterwards.
     if plain:
-        g, j, s = (16, 24, 5) if quick else (32, 64, 60)
+        g, j, s = (16, 24, 4) if quick else (32, 64, 60)
         runs.append(soak(ck, plain, "plain", ck.seed, g, j, s, show=True))
+        for k in range(1 if quick else 6):
+            runs.append(soak(ck, plain, "plain-cold%d" % k, ck.seed + 10 + k, g, j, 1 if quick else 5, order="after"))
     if raceb:
-        g, j, s = (8, 16, 8) if quick else (16, 32, 150)
-        runs.append(soak(ck, raceb, "race", ck.seed + 1, g, j, s, once=True, timeout=1800))
+        g, j, s = (8, 16, 3) if quick else (16, 32, 120)
+        runs.append(soak(ck, raceb, "race-cold", ck.seed + 1, g, j, s, once=True, timeout=1800, order="after"))
+        if not quick:
+            runs.append(soak(ck, raceb, "race", ck.seed + 2, g, j, 60, once=True, timeout=1800))
     # statically flagged variables: aim a second soak at the job kinds that reach them
     if writers and raceb and not any(r["fails"] or r["races"] or r["crash"] for r in runs):
         mix = []
@@ -379,9 +397,9 @@ def run_c18(ck):
                     mix += [k for k in kinds if k not in mix]
                     break
         if mix:
-            runs.append(soak(ck, raceb, "race-aimed", ck.seed + 2, 8, 16, 10 if quick else 60, mix=mix, once=True, timeout=1800))
+            runs.append(soak(ck, raceb, "race-aimed", ck.seed + 3, 8, 16, 10 if quick else 60, mix=mix, once=True, timeout=1800, order="after"))
             if plain:
-                runs.append(soak(ck, plain, "plain-aimed", ck.seed + 3, 16, 32, 6 if quick else 60, mix=mix))
+                runs.append(soak(ck, plain, "plain-aimed", ck.seed + 4, 16, 32, 6 if quick else 60, mix=mix, order="after"))
     found = 0
     total_runs, kinds_all, jobs_all = 0, {}, 0
     for r in runs:
@@ -422,7 +440,7 @@ def run_c18(ck):
                 "WriteHeader/BusReader/BusWriter incl. the alwaysError paths; stateless: 8 mappers x 20000 addresses, color15, xbuf, RegionNames)",
         "traces_validated_against_impl": total_runs,
         "job_kind_distribution": kinds_all,
-        "soaks": [{k: r[k] for k in ("label", "rc", "summ", "goroutines", "soak_secs", "secs")} for r in runs],
+        "soaks": [{k: r[k] for k in ("label", "order", "rc", "summ", "goroutines", "soak_secs", "secs")} for r in runs],
         "checker_cmd": "coqc build/work/Run/C18_sched.v build/work/Run/C18_premise.v (over Props/Sched.vo and the regenerated build/work/Gen/GenGlobals.v); "
                        "build/globals -repo $VERIF_REPO; build/harness.bin race ...; GORACE=... build/harness_race.bin race ...",
         "modelled": "scheduling: Props/Sched.v; code facts: Gen/GenGlobals.v regenerated from source on this run",
@@ -438,7 +456,8 @@ def replay(pid, rp):
         if binary is None:
             print(herr)
             return 1
-        cmd = [binary, "race", "-goroutines", str(r.get("goroutines", 8)), "-secs", str(r.get("secs", 10)), "-only", r["only"], "-once"]
+        cmd = [binary, "race", "-goroutines", str(r.get("goroutines", 8)), "-secs", str(r.get("secs", 10)), "-only", r["only"], "-once",
+               "-order", r.get("order", "before")]
         rc, out, _ = vlib.sh(cmd, timeout=1800, env=dict(vlib.GOENV, GORACE="halt_on_error=0 exitcode=66"))
         print(out[-6000:])
         return 1 if (rc != 0 or "FAIL race" in out or "DATA RACE" in out) else 0
